@@ -23,14 +23,15 @@ META = dict(
     engine="E2-hist", level="model_checking",
     technique="explicit-state breadth-first search over all operation histories up to a depth on the real objects, "
               "in lock-step with a counting reference model (exactly-once destructors/frees, keep-alive, export lock, handles)",
-    text="All histories of depth <= 3/4 (quick; thorough 4/5 with merging beyond the unmerged depth) on 3 slots, for six "
+    text="All histories of depth <= 3/4 (quick; thorough 4/5 with merging beyond the unmerged depth 3) on 3 slots, for six "
          "operation families: 'full'/'core' (allocator objects, ffi.new, from_buffer, handles, gc wrappers with plain / "
          "cyclic / re-entrant destructors, links between wrappers), 'alloc' (allocators returning raw memory / an owning "
          "char[] / with free=None / new_allocator() without arguments; union, var-sized struct, int[], int *, struct[2] "
          "allocations; initializers that fail after alloc(); alloc() returning NULL / a non-cdata / a non-pointer / "
-         "raising; release, with and gc(x, None) offered on EVERY object incl. p[0]), 'dtor' (destructors that raise, "
-         "are ffi.callback cdata, bound methods of an object holding the wrapper, functools.partial; with-bodies that "
-         "raise), 'buf' (from_buffer in 4 forms over bytearray / array.array / mmap / a PEP 688 object that counts "
+         "raising; an allocator whose free function references the allocated object (a cycle); release, with and "
+         "gc(x, None) offered on EVERY object incl. p[0]), 'dtor' (destructors that raise, are ffi.callback cdata, bound "
+         "methods of an object holding the wrapper, functools.partial; with-bodies that raise; objects that die while an "
+         "exception is being raised), 'buf' (from_buffer in 4 forms over bytearray / array.array / mmap / a PEP 688 object that counts "
          "acquisitions and releases and is referenced by nothing else; ffi.gc() over from_buffer objects; ffi.buffer() "
          "views; source<->from_buffer cycles), 'handle' (handles whose target only the handle keeps alive, target<->"
          "handle cycles, handles to None / a cdata, ffi.gc() over handles with a destructor that calls from_handle). "
@@ -44,7 +45,10 @@ META = dict(
          "always go to the lowest free slot (slots are symmetric, this only removes renamings).  Where the statement is "
          "silent (release/with/gc(x, None) on objects that are not ffi.new/ffi.gc/from_buffer/allocator results) both "
          "'rejected with an exception, nothing changes' and 'accepted' pass; ffi.gc(x, None) ACCEPTED on an allocator "
-         "object is read as 'free never runs afterwards'.  Expected duration: quick about 30 s, thorough 5-10 min.")
+         "object is read as 'free never runs afterwards'.  ffi.buffer() views are real references that the statement "
+         "does not promise: the model neither requires nor forbids that they keep their object alive.  Expected "
+         "duration on the idle 16-core machine: quick about 15 s (620 000 transitions), thorough about 4 min (7 million); "
+         "both scale with the load of the machine.")
 
 NSLOT = 3
 SENT = 0x5A17
@@ -91,6 +95,11 @@ ALPHAS = {
     "buf": dict(create=[("fb",)] + [("fbx", f, s) for s in FB_SRCS for f in FB_FORMS if (f, s) != ("", "ba")],
                 dk=("plain", "cycle", "cb"), gc_on=("fb", "gc"), wide=True, with_raise=True, dup=True, resize=True,
                 buf=True, tie=True, collect=[("collect",), ("collect", 0)]),
+    # the same with every form and every source once (for the deeper search of the thorough tier)
+    "bufcore": dict(create=[("fb",), ("fbx", "", "own"), ("fbx", "int[]", "arr"), ("fbx", "char *", "mm"),
+                            ("fbx", "rw", "own")],
+                    dk=("plain", "cycle", "cb"), gc_on=("fb", "gc"), wide=True, with_raise=True, dup=True, resize=True,
+                    buf=True, tie=True, collect=[("collect",), ("collect", 0)]),
     # gap 6: handle kinds, gc over handles
     "handle": dict(create=[("handle", k) for k in (0, 1, "own", "self", "none", "cd")] + [("newp",)],
                    dk=("plain", "cycle", "fromh"), gc_on=("handle", "gc", "newp"), wide=True, dup=True,
@@ -1185,9 +1194,12 @@ def _plans(quick):
         ("core", 5, 3, None, FRONTS, MODES, ("raw",)),
         ("full", 3, 3, CHAIN, FRONTS, MODES, ("raw",)),
         ("core", 4, 3, CHAIN, FRONTS, MODES, ("raw",)),
-        ("alloc", 4, 3, None, FRONTS, MODES, ALLOCATORS),
+        ("alloc", 4, 3, None, FRONTS, ("none", "every"), ALLOCATORS),
+        ("alloc", 4, 3, None, FRONTS, ("auto",), ("raw",)),
+        ("alloc", 3, 3, None, FRONTS, ("auto",), ("owning", "nofree", "default")),
         ("dtor", 4, 3, None, FRONTS, MODES, ("raw", "owning")),
-        ("buf", 4, 3, None, FRONTS, MODES, ("raw",)),
+        ("buf", 3, 3, None, FRONTS, MODES, ("raw",)),
+        ("bufcore", 4, 3, None, FRONTS, MODES, ("raw",)),
         ("handle", 4, 3, None, FRONTS, MODES, ("raw",)),
     ]
 
@@ -1215,7 +1227,11 @@ def run(ctx):
     per_axis = {}
     crashes = []
     suppressed = 0
+    ndone = 0
     for item, r in pool.pmap(_work, [[it] for it in items], contain_crashes=True, item_timeout=3600):
+        ndone += 1
+        if ndone % 100 == 0:
+            ctx.log("C21: %d of %d work items done, %d transitions" % (ndone, len(items), total.transitions))
         if isinstance(r, pool.WorkerError):
             raise InfraError(r.tb)
         if isinstance(r, pool.Crash):
@@ -1232,6 +1248,7 @@ def run(ctx):
             per_axis[key] = per_axis.get(key, 0) + r.transitions
     for pi, (alpha, depth, d0, pre, fronts, modes, allocators) in enumerate(plans):
         ctx.count("transitions_%s_depth%d%s" % (alpha, depth, "_from_chain" if pre else ""), per_plan.get(pi, 0))
+        ctx.count("configurations_%s" % alpha, len(fronts) * len(modes) * len(allocators))
     for k, v in sorted(per_axis.items()):
         ctx.count(k, v)
     for (item, cr, last) in crashes:
@@ -1264,7 +1281,7 @@ def run(ctx):
         "states": total.states, "transitions": total.transitions,
         "traces_validated_against_impl": total.transitions,
         "max_depth": total.max_depth,
-        "unmerged_depth_d0": {p[0] + ("_from_chain" if p[3] else ""): p[2] for p in plans},
+        "unmerged_depth_d0": {"%s_depth%d%s" % (p[0], p[1], "_from_chain" if p[3] else ""): p[2] for p in plans},
         "initial_states": ["empty", "chain x <- gc(x) <- gc(gc(x))"],
         "merged_states_skipped": total.merged,
         "histories_closed": total.histories_closed,
